@@ -48,6 +48,7 @@ pub mod c34;
 pub mod c35;
 pub mod c36;
 pub mod c37;
+pub mod c37net;
 pub mod c38;
 pub mod c39;
 pub mod c40;
